@@ -1,0 +1,251 @@
+//go:build verif
+
+package sizes
+
+// Verification hooks (build tag `verif`): trace events at the linearization
+// points of the scan, one NDJSON line per event, each with a cheap snapshot of
+// the aggregation state. With the tag off these compile to nothing.
+
+import (
+	"encoding/json"
+	"os"
+	"sync"
+	"sync/atomic"
+
+	"github.com/github/git-sizer/counts"
+	"github.com/github/git-sizer/git"
+)
+
+type verifGraphState struct {
+	scan int64
+	seq  int64
+}
+
+var (
+	verifMu          sync.Mutex
+	verifSink        func(line []byte)
+	verifScanCounter int64
+)
+
+func init() {
+	if p := os.Getenv("GIT_SIZER_VERIF_TRACE"); p != "" {
+		f, err := os.OpenFile(p, os.O_APPEND|os.O_CREATE|os.O_WRONLY, 0o644)
+		if err == nil {
+			verifSink = func(b []byte) { _, _ = f.Write(b) }
+		}
+	}
+}
+
+// VerifSetSink installs (or removes, with nil) the event sink.
+func VerifSetSink(f func(line []byte)) {
+	verifMu.Lock()
+	verifSink = f
+	verifMu.Unlock()
+}
+
+type verifRootRec struct {
+	Name   string   `json:"name"`
+	OID    string   `json:"oid"`
+	Walk   bool     `json:"walk"`
+	IsRef  bool     `json:"isref"`
+	Groups []string `json:"groups"`
+}
+
+type verifRec struct {
+	Scan  int64             `json:"scan"`
+	Seq   int64             `json:"seq"`
+	Ev    string            `json:"ev"`
+	OID   string            `json:"oid,omitempty"`
+	Aux   string            `json:"aux,omitempty"`
+	Mem   [4]int            `json:"mem"`  // finalized blobs, trees, commits, tags
+	Pend  [2]int            `json:"pend"` // pending tree / tag records
+	H     map[string]uint64 `json:"h"`
+	W     map[string]string `json:"w"`
+	D     map[string]string `json:"d,omitempty"`
+	Size  map[string]uint64 `json:"size,omitempty"`
+	Roots []verifRootRec    `json:"roots,omitempty"`
+}
+
+func verifPathOID(p *Path) string {
+	if p == nil {
+		return ""
+	}
+	return p.OID.String()
+}
+
+func (g *Graph) verifSnapshot(r *verifRec) {
+	g.blobLock.Lock()
+	r.Mem[0] = len(g.blobSizes)
+	g.blobLock.Unlock()
+	g.treeLock.Lock()
+	r.Mem[1] = len(g.treeSizes)
+	r.Pend[0] = len(g.treeRecords)
+	g.treeLock.Unlock()
+	g.commitLock.Lock()
+	r.Mem[2] = len(g.commitSizes)
+	g.commitLock.Unlock()
+	g.tagLock.Lock()
+	r.Mem[3] = len(g.tagSizes)
+	r.Pend[1] = len(g.tagRecords)
+	g.tagLock.Unlock()
+
+	g.historyLock.Lock()
+	s := &g.historySize
+	r.H = map[string]uint64{
+		"unique_commit_count":          uint64(s.UniqueCommitCount),
+		"unique_commit_size":           uint64(s.UniqueCommitSize),
+		"max_commit_size":              uint64(s.MaxCommitSize),
+		"max_history_depth":            uint64(s.MaxHistoryDepth),
+		"max_parent_count":             uint64(s.MaxParentCount),
+		"unique_tree_count":            uint64(s.UniqueTreeCount),
+		"unique_tree_size":             uint64(s.UniqueTreeSize),
+		"unique_tree_entries":          uint64(s.UniqueTreeEntries),
+		"max_tree_entries":             uint64(s.MaxTreeEntries),
+		"unique_blob_count":            uint64(s.UniqueBlobCount),
+		"unique_blob_size":             uint64(s.UniqueBlobSize),
+		"max_blob_size":                uint64(s.MaxBlobSize),
+		"unique_tag_count":             uint64(s.UniqueTagCount),
+		"max_tag_depth":                uint64(s.MaxTagDepth),
+		"reference_count":              uint64(s.ReferenceCount),
+		"max_path_depth":               uint64(s.MaxPathDepth),
+		"max_path_length":              uint64(s.MaxPathLength),
+		"max_expanded_tree_count":      uint64(s.MaxExpandedTreeCount),
+		"max_expanded_blob_count":      uint64(s.MaxExpandedBlobCount),
+		"max_expanded_blob_size":       uint64(s.MaxExpandedBlobSize),
+		"max_expanded_link_count":      uint64(s.MaxExpandedLinkCount),
+		"max_expanded_submodule_count": uint64(s.MaxExpandedSubmoduleCount),
+	}
+	r.W = map[string]string{
+		"max_commit_size":              verifPathOID(s.MaxCommitSizeCommit),
+		"max_parent_count":             verifPathOID(s.MaxParentCountCommit),
+		"max_tree_entries":             verifPathOID(s.MaxTreeEntriesTree),
+		"max_blob_size":                verifPathOID(s.MaxBlobSizeBlob),
+		"max_tag_depth":                verifPathOID(s.MaxTagDepthTag),
+		"max_path_depth":               verifPathOID(s.MaxPathDepthTree),
+		"max_path_length":              verifPathOID(s.MaxPathLengthTree),
+		"max_expanded_tree_count":      verifPathOID(s.MaxExpandedTreeCountTree),
+		"max_expanded_blob_count":      verifPathOID(s.MaxExpandedBlobCountTree),
+		"max_expanded_blob_size":       verifPathOID(s.MaxExpandedBlobSizeTree),
+		"max_expanded_link_count":      verifPathOID(s.MaxExpandedLinkCountTree),
+		"max_expanded_submodule_count": verifPathOID(s.MaxExpandedSubmoduleCountTree),
+	}
+	g.historyLock.Unlock()
+}
+
+func (g *Graph) verifEmit(r *verifRec) {
+	verifMu.Lock()
+	sink := verifSink
+	verifMu.Unlock()
+	if sink == nil {
+		return
+	}
+	if g.verif.scan == 0 {
+		g.verif.scan = atomic.AddInt64(&verifScanCounter, 1)
+	}
+	g.verif.seq++
+	r.Scan = g.verif.scan
+	r.Seq = g.verif.seq
+	g.verifSnapshot(r)
+	b, err := json.Marshal(r)
+	if err != nil {
+		return
+	}
+	b = append(b, '\n')
+	verifMu.Lock()
+	sink(b)
+	verifMu.Unlock()
+}
+
+func verifEvent(g *Graph, ev string, oid git.OID) {
+	g.verifEmit(&verifRec{Ev: ev, OID: oid.String()})
+}
+
+func verifMatch(g *Graph, oid, tree git.OID) {
+	g.verifEmit(&verifRec{Ev: "Match", OID: oid.String(), Aux: tree.String()})
+}
+
+func verifTreeFinal(g *Graph, oid git.OID, size TreeSize, objectSize, entries counts.Count32) {
+	g.verifEmit(&verifRec{Ev: "TreeFinal", OID: oid.String(), Size: map[string]uint64{
+		"depth": uint64(size.MaxPathDepth), "plen": uint64(size.MaxPathLength),
+		"trees": uint64(size.ExpandedTreeCount), "blobs": uint64(size.ExpandedBlobCount),
+		"bsize": uint64(size.ExpandedBlobSize), "links": uint64(size.ExpandedLinkCount),
+		"subs":    uint64(size.ExpandedSubmoduleCount),
+		"objsize": uint64(objectSize), "entries": uint64(entries),
+	}})
+}
+
+func verifTagFinal(g *Graph, oid git.OID, size TagSize) {
+	g.verifEmit(&verifRec{Ev: "TagFinal", OID: oid.String(), Size: map[string]uint64{
+		"depth": uint64(size.TagDepth),
+	}})
+}
+
+func verifRootRecOf(root Root) verifRootRec {
+	rr := verifRootRec{Name: root.Name(), OID: root.OID().String(), Walk: root.Walk(), Groups: []string{}}
+	if ref, ok := root.(ReferenceRoot); ok {
+		rr.IsRef = true
+		for _, s := range ref.Groups() {
+			rr.Groups = append(rr.Groups, string(s))
+		}
+	}
+	return rr
+}
+
+func verifRoots(g *Graph, roots []Root) {
+	r := &verifRec{Ev: "Roots", Roots: []verifRootRec{}}
+	for _, root := range roots {
+		r.Roots = append(r.Roots, verifRootRecOf(root))
+	}
+	g.verifEmit(r)
+}
+
+func verifRoot(g *Graph, root Root) {
+	g.verifEmit(&verifRec{Ev: "Ref", Aux: root.Name(), OID: root.OID().String()})
+}
+
+func verifDone(g *Graph) {
+	r := &verifRec{Ev: "Done", D: map[string]string{}}
+	g.historyLock.Lock()
+	s := &g.historySize
+	for k, p := range map[string]*Path{
+		"max_commit_size": s.MaxCommitSizeCommit, "max_parent_count": s.MaxParentCountCommit,
+		"max_tree_entries": s.MaxTreeEntriesTree, "max_blob_size": s.MaxBlobSizeBlob,
+		"max_tag_depth": s.MaxTagDepthTag, "max_path_depth": s.MaxPathDepthTree,
+		"max_path_length": s.MaxPathLengthTree, "max_expanded_tree_count": s.MaxExpandedTreeCountTree,
+		"max_expanded_blob_count": s.MaxExpandedBlobCountTree, "max_expanded_blob_size": s.MaxExpandedBlobSizeTree,
+		"max_expanded_link_count": s.MaxExpandedLinkCountTree, "max_expanded_submodule_count": s.MaxExpandedSubmoduleCountTree,
+	} {
+		if p != nil {
+			r.D[k] = p.Path()
+		}
+	}
+	g.historyLock.Unlock()
+	g.verifEmit(r)
+}
+
+// VerifRecordCommit performs step S4 of the scan (which the scan does on the
+// unexported path resolver) for API-level replay, and emits its event.
+func (g *Graph) VerifRecordCommit(oid, tree git.OID) {
+	g.pathResolver.RecordCommit(oid, tree)
+	verifMatch(g, oid, tree)
+}
+
+// VerifRoot performs step S6 for one root for API-level replay.
+func (g *Graph) VerifRoot(root Root) {
+	if refRoot, ok := root.(ReferenceRoot); ok {
+		g.RegisterReference(refRoot.Reference(), refRoot.Groups())
+	}
+	if root.Walk() {
+		g.pathResolver.RecordName(root.Name(), root.OID())
+	}
+	verifRoot(g, root)
+}
+
+// VerifRoots / VerifDone emit the bracketing events for API-level replay.
+func (g *Graph) VerifRoots(roots []Root) { verifRoots(g, roots) }
+func (g *Graph) VerifDone()              { verifDone(g) }
+
+// NewRefRoot builds a reference root for API-level replay.
+func NewRefRoot(ref git.Reference, walk bool, groups []RefGroupSymbol) RefRoot {
+	return RefRoot{ref: ref, walk: walk, groups: groups}
+}
